@@ -1441,9 +1441,15 @@ class DistPearson6(DistContinuous):
     def probability_density(self, x: float) -> float:
         """Returns the probability density value for value x."""
         if x > 0:
-            return (math.pow(x / self._beta, self._alpha1 - 1) 
-                   / (self._beta * beta(self._alpha1, self._alpha2)
-                   * math.pow(1 + x / self._beta, self._alpha1 + self._alpha2))) 
+            # evaluated in log space: the two powers overflow separately
+            # for large x although their quotient is representable
+            lnx = math.log(x) - math.log(self._beta)
+            return math.exp((self._alpha1 - 1) * lnx
+                - math.log(self._beta) - math.lgamma(self._alpha1)
+                - math.lgamma(self._alpha2)
+                + math.lgamma(self._alpha1 + self._alpha2)
+                - (self._alpha1 + self._alpha2) 
+                * math.log1p(x / self._beta))
         return 0.0
 
     @property
